@@ -286,8 +286,10 @@ def main(argv):
         'violations': len(new_sigs),
     }
     errs = validate_evidence(ev)
-    os.makedirs(os.path.join(HERE, 'evidence'), exist_ok=True)
-    with open(os.path.join(HERE, 'evidence', pid + '.json'), 'w') as f:
+    # evidence/ describes /repo; a run against another tree (VERIF_REPO: mutation and seed evaluation) must not overwrite it
+    evdir = os.path.join(HERE, 'evidence') if os.path.realpath(REPO) == '/repo' else os.path.join(HERE, 'build', 'evidence-other-tree')
+    os.makedirs(evdir, exist_ok=True)
+    with open(os.path.join(evdir, pid + '.json'), 'w') as f:
         json.dump(ev, f, indent=1, sort_keys=True)
     print('%s %s: configs=%d evaluations=%d states=%d transitions=%d distinct_obs=%d nontrivial=%d '
           'validated=%d violations=%d known=%d wall=%.1fs' %
